@@ -363,8 +363,10 @@ def run(pid, tier, seed, args, t0):
         ev['coverage']['evaluations'] = max(1, len(obls) + sum(t.get('cases') or 0 for t in table_results))
         ev['coverage']['distinct_nontrivial'] = max(2, n_obl)
         ev['coverage']['rule'] = 'one case per named proof obligation / table entry generated from the current source'
-    os.makedirs(os.path.join(HERE, 'evidence'), exist_ok=True)
-    with open(os.path.join(HERE, 'evidence', pid + '.json'), 'w') as f:
+    # a self-test run (in-memory mutant) must not overwrite the evidence of the real tree
+    evdir = os.path.join(HERE, 'out', 'mutant-evidence') if (os.environ.get('PYVC_MUTANT') or os.environ.get('PYVC_REPO')) else os.path.join(HERE, 'evidence')
+    os.makedirs(evdir, exist_ok=True)
+    with open(os.path.join(evdir, pid + '.json'), 'w') as f:
         json.dump(ev, f, indent=1, default=str)
     # ---- report
     print('property %s tier=%s: %d obligations, %d discharged, %d functions, %.1fs' % (
